@@ -104,7 +104,15 @@ class Tr:
                 if t == "vec":
                     return "vec", "(vsqrt %s)" % c, "vsqrt(%s)" % p
                 return "real", "(sqrt %s)" % c, "rsqrt(%s)" % p
-            _no(e, "only np.sqrt(<one argument>) may be called")
+            # np.asarray(x, dtype=float): the same vector of reals (it only fixes the element type to double precision)
+            if (isinstance(f, ast.Attribute) and isinstance(f.value, ast.Name) and f.value.id == "np" and f.attr == "asarray" and len(e.args) == 1
+                    and not isinstance(e.args[0], ast.Starred) and len(e.keywords) == 1 and e.keywords[0].arg == "dtype"
+                    and isinstance(e.keywords[0].value, ast.Name) and e.keywords[0].value.id == "float"):
+                t, c, p = self.expr(e.args[0], pre)
+                if t != "vec":
+                    _no(e, "np.asarray of a non-array")
+                return "vec", c, p
+            _no(e, "only np.sqrt(<one argument>) / np.asarray(<array>, dtype=float) may be called")
         if isinstance(e, ast.Subscript):
             t, c, p = self.expr(e.value, pre)
             if t != "vec":
